@@ -979,6 +979,7 @@ pub fn a2_alphabet() -> Vec<(&'static str, Vec<I>)> {
         ("stxw [r10-16],r3", vec![i(0x63, 10, 3, -16, 0)]),
         ("ldxw r2,[r10-16]", vec![i(0x61, 2, 10, -16, 0)]),
         ("stb [r10-1],0x1ff", vec![i(0x72, 10, 0, -1, 0x1ff)]),
+        ("stxdw [r10-512],r2", vec![i(0x7b, 10, 2, -512, 0)]),
         ("ldxb r0,[r10-1]", vec![i(0x71, 0, 10, -1, 0)]),
         ("stxdw [r8+0],r4", vec![i(0x7b, 8, 4, 0, 0)]),
         ("ldxdw r2,[r8+0]", vec![i(0x79, 2, 8, 0, 0)]),
